@@ -724,6 +724,84 @@ func checkCopyDiscipline(r *Reporter, p *Prog) {
 			}
 			return true
 		})
+		// a raw value may rest in a SNAPSHOT container of the function (a local map or slice of byte slices
+		// made here that never leaves the function): what is read out of the container is raw again and
+		// has to go through a copying call before it is handed on. That is sound because stored slices
+		// are immutable - every store into the shared map installs a fresh copy (checked below) and none
+		// is written in place (checked at the end).
+		snapshot := map[types.Object]bool{}
+		ast.Inspect(fd.Body, func(n ast.Node) bool {
+			as, ok := n.(*ast.AssignStmt)
+			if !ok || len(as.Lhs) != 1 || len(as.Rhs) != 1 {
+				return true
+			}
+			ix, ok := ast.Unparen(as.Lhs[0]).(*ast.IndexExpr)
+			if !ok {
+				return true
+			}
+			ro := objOfIdent(info, as.Rhs[0])
+			lo := objOfIdent(info, ix.X)
+			if ro == nil || !raw[ro] || lo == nil {
+				return true
+			}
+			if v, isVar := lo.(*types.Var); isVar && !v.IsField() && v.Pos() > fd.Body.Pos() && v.Pos() < fd.Body.End() {
+				snapshot[lo] = true
+			}
+			return true
+		})
+		// the container does not escape: every mention of it is an index expression, a range operand, len() or
+		// its own definition by make
+		for so := range snapshot {
+			escapes := false
+			var st2 []ast.Node
+			ast.Inspect(fd.Body, func(n ast.Node) bool {
+				if n == nil {
+					st2 = st2[:len(st2)-1]
+					return true
+				}
+				st2 = append(st2, n)
+				id, ok := n.(*ast.Ident)
+				if !ok || (info.Uses[id] != so && info.Defs[id] != so) || len(st2) < 2 {
+					return true
+				}
+				switch par := st2[len(st2)-2].(type) {
+				case *ast.IndexExpr:
+					if par.X == ast.Expr(id) {
+						return true
+					}
+				case *ast.RangeStmt:
+					if par.X == ast.Expr(id) {
+						return true
+					}
+				case *ast.CallExpr:
+					if k := rawKey(par.Fun); k == "len" || k == "delete" {
+						return true
+					}
+				case *ast.AssignStmt:
+					if len(par.Lhs) == 1 && par.Lhs[0] == ast.Expr(id) && len(par.Rhs) == 1 {
+						if c, isCall := ast.Unparen(par.Rhs[0]).(*ast.CallExpr); isCall && rawKey(c.Fun) == "make" {
+							return true
+						}
+					}
+				case *ast.ValueSpec:
+					return true
+				}
+				escapes = true
+				return true
+			})
+			if escapes {
+				delete(snapshot, so)
+			}
+		}
+		// values read back out of a snapshot container are raw
+		ast.Inspect(fd.Body, func(n ast.Node) bool {
+			if rs, ok := n.(*ast.RangeStmt); ok && rs.Value != nil && snapshot[objOfIdent(info, rs.X)] {
+				if o := objOfIdent(info, rs.Value); o != nil {
+					raw[o] = true
+				}
+			}
+			return true
+		})
 		// every use of a raw variable must be an argument of a copying function
 		var stack []ast.Node
 		bad := ""
@@ -741,7 +819,7 @@ func checkCopyDiscipline(r *Reporter, p *Prog) {
 					return true
 				}
 			case *ast.IndexExpr:
-				if !fieldSel(info, x.X, "m") || !isByteSlice(info.TypeOf(x)) {
+				if !(fieldSel(info, x.X, "m") || snapshot[objOfIdent(info, x.X)]) || !isByteSlice(info.TypeOf(x)) {
 					return true
 				}
 				// direct use of s.m[k] as a value (not comma-ok assignment handled above, not a store)
@@ -762,6 +840,12 @@ func checkCopyDiscipline(r *Reporter, p *Prog) {
 			par := stack[len(stack)-2]
 			if c, ok := par.(*ast.CallExpr); ok && copyFuncs[exprKey(c.Fun)] {
 				return true
+			}
+			// parked in a snapshot container of this function
+			if as, ok := par.(*ast.AssignStmt); ok && len(as.Lhs) == 1 && len(as.Rhs) == 1 && as.Rhs[0] == ast.Expr(n.(ast.Expr)) {
+				if ix, isIx := ast.Unparen(as.Lhs[0]).(*ast.IndexExpr); isIx && snapshot[objOfIdent(info, ix.X)] {
+					return true
+				}
 			}
 			// handed to a visitor: a call of a function-typed PARAMETER of this method. The obligation
 			// moves to the literals the callers pass for that parameter, whose matching parameter is raw.
@@ -825,6 +909,40 @@ func checkCopyDiscipline(r *Reporter, p *Prog) {
 				}
 				if !okCopy && bad == "" {
 					bad = fmt.Sprintf("%s: the caller's buffer is stored without a copy; later mutation of the buffer changes stored data", p.posStr(as.Pos()))
+				}
+			}
+			return true
+		})
+		// stored slices are never written in place
+		ast.Inspect(fd.Body, func(n ast.Node) bool {
+			isElem := func(e ast.Expr) bool {
+				ix, ok := ast.Unparen(e).(*ast.IndexExpr)
+				return ok && fieldSel(info, ix.X, "m")
+			}
+			switch x := n.(type) {
+			case *ast.AssignStmt:
+				for _, l := range x.Lhs {
+					switch y := ast.Unparen(l).(type) {
+					case *ast.IndexExpr:
+						if isElem(y.X) {
+							bad = p.posStr(x.Pos()) + ": a stored slice is written in place: readers that hold it (snapshots, copies in progress) see the change"
+						}
+					case *ast.SliceExpr:
+						_ = y
+					}
+				}
+			case *ast.CallExpr:
+				if k := rawKey(x.Fun); (k == "copy" || k == "append") && len(x.Args) > 0 {
+					hit := false
+					ast.Inspect(x.Args[0], func(m ast.Node) bool {
+						if e, ok := m.(ast.Expr); ok && isElem(e) {
+							hit = true
+						}
+						return !hit
+					})
+					if hit {
+						bad = p.posStr(x.Pos()) + ": a stored slice is the destination of " + k + " (written in place)"
+					}
 				}
 			}
 			return true
@@ -1238,6 +1356,30 @@ func checkBatchDisjoint(r *Reporter, p *Prog) {
 			}
 			if (rel.Op == "==" && ((isLenOpp(rel.L) && rel.R == "0") || (isLenOpp(rel.R) && rel.L == "0"))) || (rel.Op == "<=" && isLenOpp(rel.L) && rel.R == "0") {
 				emptyOpp[e] = true
+			}
+		})
+		// ... nor on the edge on which the key was looked up in the opposite map and found absent
+		// (`if _, pending := b.setOperations[key]; pending { delete(...) }`)
+		f.forEachEdgeFact(func(e Edge, b *cfg.Block, ft fact) {
+			if ft.Pol {
+				return
+			}
+			id, ok := ast.Unparen(ft.Atom).(*ast.Ident)
+			if !ok {
+				return
+			}
+			o := objOfIdent(info, id)
+			if o == nil {
+				return
+			}
+			defs, fromEntry := f.ReachingDefs(Point{b, len(b.Nodes) - 1}, o)
+			if len(defs) != 1 || fromEntry {
+				return
+			}
+			if as, isAs := f.nodeAt(defs[0].At).(*ast.AssignStmt); isAs && len(as.Lhs) == 2 && len(as.Rhs) == 1 && objOfIdent(info, as.Lhs[1]) == o {
+				if ix, isIx := ast.Unparen(as.Rhs[0]).(*ast.IndexExpr); isIx && fieldSel(info, ix.X, row.remove) {
+					emptyOpp[e] = true
+				}
 			}
 		})
 		_, missRem := f.reach(f.entry(), &searchOpts{AvoidNode: isRem, AvoidEdge: func(e Edge) bool { return emptyOpp[e] }}, func(pt Point, atExit bool) bool { return atExit })
